@@ -1,0 +1,14 @@
+//go:build verif
+
+package processorqueue
+
+import "time"
+
+// NextExpireAt is the instant the TTL watcher's timer is set for (what
+// manageTTLs reads at the top of every iteration); false when the stored value
+// is not a time. Exporting shim for the external verification harness
+// (property C06, suite "sched"): no behaviour lives here.
+func (h *VerifHandle) NextExpireAt() (time.Time, bool) {
+	t, ok := h.p.requestsWatcher.nextExpireAt.Load().(time.Time)
+	return t, ok
+}
